@@ -18,7 +18,7 @@ SHARD = 40
 RULE = ("histories over real workspaces: a universe (homogeneous / heterogeneous / nested / textually colliding / "
         "awkward strings: spaces, dots, unicode, empty, '.', '..', the leaf name 'job', separators, also inside list elements) of 0..7 initial jobs, "
         "key names that are string prefixes of one another with custom specs naming one key next to {{auto}}, values that vanish under normpath ('.', '') with two-key format paths, then 1..4 create_linked_view calls (job_ids None / subsets incl. empty / path None, False, format strings with "
-        "{{auto}}, invalid specs / absolute or cwd-relative prefix / two alternating prefixes) interleaved with add, remove "
+        "{{auto}}, invalid specs / job_ids naming a job twice / absolute or cwd-relative prefix, prefix=None (default name in the working directory), prefix below a symbolic link to a directory at another depth, project opened through a symbolic link / two alternating prefixes) interleaved with add, remove "
         "and re-key of jobs and with moving the view directory to another depth (stale but well-named links).  Every create_linked_view call is one case: world snapshot before, the call, snapshot after, "
         "the same call again (mutating syscalls counted), and a from-scratch build under a fresh sibling prefix; the model "
         "is run in Coq on the same input and must reproduce result class, returned mapping and all three trees; the oracle "
@@ -36,7 +36,7 @@ TRUSTED = [
     "32-hex job ids are abbreviated consistently to a unique prefix in all emitted strings",
 ]
 ASSUMPTIONS = [
-    "the view prefix is not itself below a symbolic link and its parent directory exists",
+    "the parent directory of the view prefix exists (it may lie below a symbolic link: the oracle speaks about physical directories)",
     "the prefix contains only what earlier create_linked_view calls left (directories and links); otherwise no claim",
     "path specs do not start with the separator",
     "the case directory lies 16 levels below '/', so '..' chains of link targets never clamp at the file system root",
@@ -237,6 +237,8 @@ def gen_history(rng):
             ids = sorted(rng.sample(range(64), rng.randint(1, 4)))
         pname = rng.choice([main, main, main, "w"]) if not moved else "d"
         steps.append({"op": "view", "ids": ids, "path": path, "prefix": pname})
+        if ids and rng.random() < 0.12:
+            steps[-1]["dup"] = True      # job_ids names one job twice
         if not moved and pname == "v" and v + 1 < nviews and rng.random() < 0.15:
             steps.append({"op": "mvview", "src": "v", "dst": "d"})
             moved = True
@@ -318,6 +320,9 @@ def fixed_histories():
     # selections on which a key that varies in the project is constant, and one-job selections: the expected paths
     # spell the keys that distinguish the SELECTED jobs
     grid = [{"a": a, "b": b, "c": "k"} for a in (1, 2) for b in ("x", "y y")]
+    h("fix-repeated-id", [{"a": 1}, {"a": 2}, {"a": 3}],
+      [dict(V, ids=[0], dup=True), V, dict(V, ids=[1], dup=True), dict(V, ids=[0, 1], dup=True), dict(V, ids=[2, 0], path="a/{a}", dup=True),
+       dict(V, ids=[1, 2], path=False, dup=True)])
     h("fix-selection-paths", grid,
       [dict(V, ids=[0]), dict(V, ids=[0, 1]), dict(V, ids=[0, 2]), dict(V, ids=[3]), V, dict(V, ids=[1, 2]), dict(V, ids=[2])])
     h("fix-selection-paths-spec", grid,
@@ -639,6 +644,8 @@ def one_view(signac, _make_path_function, root, pdir, live, step, desc, si):
     job_ids = None if ids is None else ([live[i % len(live)] for i in ids] if live else [])
     if job_ids is not None:
         job_ids = list(dict.fromkeys(job_ids))
+        if step.get("dup") and job_ids:
+            job_ids = job_ids + job_ids[:1]      # an iterable of ids may name a job twice: still that set of jobs
 
     # ---- the job list.  The real path function is called ONLY for the safety screen below and for the
     # replay file; the paths the model uses are computed in Coq (SV.Export.path_function) from the state points.
@@ -805,7 +812,7 @@ def one_view(signac, _make_path_function, root, pdir, live, step, desc, si):
     kinds = ["universe:" + desc["universe"], "path:" + ("None" if path is None else type(path).__name__),
              "result:" + (res1[0] if res1[0] == "Ok" else res1[1]),
              "pre:" + ("existing" if view_of(pre, name) else "fresh"),
-             "sel:" + ("all" if job_ids is None else ("empty" if not job_ids else ("one" if len(job_ids) == 1 else "subset"))),
+             "sel:" + ("all" if job_ids is None else ("empty" if not job_ids else ("repeated-id" if len(set(job_ids)) < len(job_ids) else "one" if len(job_ids) == 1 else "subset"))),
              "prefix:" + {"l": "below-symlink", "n": "None"}.get(name, "plain") + ("/project-through-symlink" if desc.get("plink") else ""),
              "pf:" + ("computed-in-coq" if in_domain else "OUT-OF-DOMAIN")]
     d = dict(desc)
